@@ -1081,7 +1081,11 @@ class BuiltinsMixin:
             insts = self.comp_instances(gen.generators, st, setlike=True)
             parts = []
             for i in insts:
-                t = self.truth(self.ev_under_binder(gen.elt, i.st))
+                prev_to, self.truth_only = self.truth_only, True      # any()/all() only look at truth values
+                try:
+                    t = self.truth(self.ev_under_binder(gen.elt, i.st))
+                finally:
+                    self.truth_only = prev_to
                 if fname == "any":
                     b = z3.And(i.guard, t)
                     parts.append(z3.Exists(i.bound, b) if i.bound else b)
